@@ -321,6 +321,20 @@ impl Check for C07 {
                         check_literal(ctx, rs.as_bytes());
                         check_literal(ctx, format!("-{}", l).as_bytes());
                     }
+                    // deviations from the tie that lie beyond the 768th significant digit
+                    let x2 = match r.below(3) {
+                        0 => x,
+                        // short ties: integers just above 2^53, dyadic fractions
+                        1 => ((1u64 << 53) + 2 * r.below(1 << 20)) as f64 * (2.0f64).powi(r.below(11) as i32),
+                        _ => (1.0 + r.below(1 << 30) as f64 * (2.0f64).powi(-52)) * (2.0f64).powi(r.below(60) as i32 - 30),
+                    };
+                    if let Some(far) = numlit::halfway_far(x2, *r.pick(&[760usize, 767, 768, 769, 770, 800, 1100])) {
+                        for l in &far {
+                            check_literal(ctx, l.as_bytes());
+                            check_literal(ctx, format!("-{}", l).as_bytes());
+                        }
+                        ctx.class("gen:halfway-far-deviation");
+                    }
                     ctx.class("gen:halfway");
                     if x.to_bits() < 0x0010_0000_0000_0000 {
                         ctx.class("gen:halfway-subnormal");
@@ -349,6 +363,6 @@ impl Check for C07 {
         }
     }
     fn required_classes(&self, _b: &str, _t: Tier) -> Vec<&'static str> {
-        vec!["gen:exhaustive-small-grammar", "gen:digit-counts", "gen:powers-of-ten", "gen:halfway", "gen:halfway-subnormal", "gen:hostile", "class:u64", "class:i64", "class:f64", "class:infinite", "literal:invalid", "literal:>19-bytes"]
+        vec!["gen:exhaustive-small-grammar", "gen:digit-counts", "gen:powers-of-ten", "gen:halfway", "gen:halfway-far-deviation", "gen:halfway-subnormal", "gen:hostile", "class:u64", "class:i64", "class:f64", "class:infinite", "literal:invalid", "literal:>19-bytes"]
     }
 }
